@@ -196,6 +196,7 @@ partial def getCP (j : Json) : Except String CP := do
   | "transform" => return .transform (← getAff (← field j "m")) (← getCP (← field j "child"))
   | "layers" => return .layers (← (← getArr (← field j "ps")).mapM getCP)
   | "group" => return .group (← getQ (← field j "alpha")) (← getCP (← field j "child"))
+  | "ref" => return .ref (← getCP (← field j "child"))
   | _ => .error "bad CP"
 
 partial def jSV : SV → Json
@@ -203,8 +204,10 @@ partial def jSV : SV → Json
     let jf := match f with
       | .solid c a => obj [("k", "solid"), ("c", jI (Int.ofNat c)), ("a", jQ a)]
       | .lin g l => obj [("k", "lin"), ("g", jQs [g.p0.x, g.p0.y, g.p1.x, g.p1.y, g.p2.x, g.p2.y]), ("l", jI (Int.ofNat l))]
+      | .rad g gt l => obj [("k", "rad"), ("g", jQs [g.c0.x, g.c0.y, g.r0, g.c1.x, g.c1.y, g.r1]), ("gt", jAff gt), ("l", jI (Int.ofNat l))]
     obj [("k", "path"), ("o", jI (Int.ofNat o)), ("tr", jAff tr), ("fill", jf)]
   | .g a kids => obj [("k", "g"), ("opacity", jQ a), ("kids", Json.arr (kids.map jSV).toArray)]
+  | .gt tr kids => obj [("k", "gt"), ("tr", jAff tr), ("kids", Json.arr (kids.map jSV).toArray)]
 
 /-- one step of a ninja-model history; returns the new directory, the edges that produced a new output, `visible` -/
 def ninjaStep (b : BuildDir) (j : Json) : Except String (BuildDir × Bool) := do
@@ -320,11 +323,12 @@ def dispatch (op : String) (j : Json) : Except String Json := do
       match applyPaintFill U Aff.id p with
       | some (.solid c a) => return obj [("fill", obj [("k", "solid"), ("c", jI (Int.ofNat c)), ("a", jQ a)])]
       | some (.lin g l) => return obj [("fill", obj [("k", "lin"), ("g", jQs [g.p0.x, g.p0.y, g.p1.x, g.p1.y, g.p2.x, g.p2.y]), ("l", jI (Int.ofNat l))])]
+      | some (.rad _ _ _) => return obj [("fill", Json.null)]
       | none => return obj [("fill", Json.null)]
   | "colr-to-svg" =>
       let p ← getCP (← field j "paint")
       let V ← getAff (← field j "V")
-      return obj [("svg", Json.arr ((toSvg V Aff.id p).map jSV).toArray)]
+      return obj [("svg", Json.arr ((toSvg V (fun t => (Aff.id, t)) Aff.id p).map jSV).toArray)]
   | "sched-run" =>
       -- deps: list of lists (node i depends on deps[i]); step function: (sum of inputs) * 31 + n * 7 + 1; schedule: list of nodes
       let deps ← (← getArr (← field j "deps")).mapM getNats
